@@ -976,3 +976,235 @@ Proof.
     destruct (delete_R_mid b1 (core ++ [c]) bl [] HR1') as (b2 & Hd & HR2); [rewrite Ebl; discriminate|].
     exists b2. rewrite Hd. split; [reflexivity|]. now rewrite app_nil_r in HR2.
 Qed.
+
+(* --- hex / base64 ------------------------------------------------------------------------ *)
+
+Lemma hex_pairs_length : forall l, length (hex_pairs l) = length l / 2.
+Proof.
+  fix IH 1. intros l. destruct l as [|a [|b r]]; [reflexivity | reflexivity |].
+  cbn [hex_pairs length]. rewrite IH. change (S (S (length r))) with (1 * 2 + length r).
+  rewrite Nat.div_add_l by lia. reflexivity.
+Qed.
+
+Lemma bin_to_hex_length up l : length (bin_to_hex up l) = length l * 2.
+Proof. unfold bin_to_hex. induction l as [|x l IH]; cbn [flat_map length app]; [reflexivity|]. rewrite IH. lia. Qed.
+
+Lemma clear_R b s : R b s -> R (fst (delete b 0%N (N.of_nat (blen b)))) [].
+Proof.
+  intros HR. destruct (R_contents _ _ HR) as (_ & Hst & Hl). destruct s as [|x s'] eqn:Es.
+  - rewrite Hl. cbn [length]. unfold delete. rewrite Hst. change (N.of_nat 0 =? 0)%N with true.
+    rewrite orb_true_r. exact HR.
+  - rewrite <- Es in *. assert (HR' : R b ([] ++ s ++ [])) by (now rewrite app_nil_r).
+    destruct (delete_R_mid b [] s [] HR') as (b' & Hd & HR2); [rewrite Es; discriminate|].
+    rewrite Hl. cbn [length] in Hd. change (N.of_nat 0) with 0%N in Hd. now rewrite Hd.
+Qed.
+
+Lemma hex_to_binary_R b s : R b s -> exists b', hex_to_binary b = (b', true) /\ R b' (hex_to_bin s).
+Proof.
+  intros HR. destruct HR as [(-> & ->) | (rest & ->)].
+  { exists empty_dyn. split; [reflexivity | now left]. }
+  unfold hex_to_binary. cbn [bstatic dyn blen].
+  destruct (length s =? 0) eqn:E0.
+  { apply Nat.eqb_eq in E0. apply length_zero_iff_nil in E0. subst s. exists (dyn [] rest). split; [reflexivity|]. right. now exists rest. }
+  change (cells (dyn s rest)) with (s ++ 0%N :: rest). rewrite (firstn_app_l (length s) s) by reflexivity.
+  erewrite (blit_at _ [] s (0%N :: rest) (map hexval s) 0); [| reflexivity | now rewrite map_length | reflexivity].
+  unfold set_cells at 2. cbn [cells app blen bstatic bfault].
+  rewrite (firstn_app_l (length s) (map hexval s)) by (now rewrite map_length).
+  fold (hex_to_bin s). set (h := hex_to_bin s).
+  assert (Hh : length h = length s / 2) by (unfold h, hex_to_bin; now rewrite hex_pairs_length, map_length).
+  assert (Hle : length s / 2 <= length s) by (apply Nat.div_le_upper_bound; lia).
+  destruct (skipn (length h) (map hexval s) ++ 0%N :: rest) as [|x W] eqn:EW.
+  { destruct (skipn (length h) (map hexval s)); discriminate. }
+  erewrite (blit_at _ [] (firstn (length h) (map hexval s)) (x :: W) h 0); [| | | reflexivity].
+  2:{ unfold set_cells. cbn [cells app]. rewrite <- EW, app_assoc, firstn_skipn. reflexivity. }
+  2:{ rewrite firstn_length, map_length. lia. }
+  unfold set_cells, set_len. cbn [cells app blen bstatic bfault].
+  erewrite (poke_at _ h x W); [| reflexivity | cbn [blen]; lia].
+  exists (dyn h W). split; [|right; now exists W].
+  unfold set_cells, dyn. cbn [cells blen bstatic bfault]. now rewrite Hh.
+Qed.
+
+Lemma binary_to_hex_R b s up : R b s -> exists b', binary_to_hex b up = (b', true) /\ R b' (bin_to_hex up s).
+Proof.
+  intros HR. destruct HR as [(-> & ->) | (rest & ->)].
+  { exists empty_dyn. split; [reflexivity | now left]. }
+  unfold binary_to_hex. cbn [bstatic dyn blen].
+  destruct (length s =? 0) eqn:E0.
+  { apply Nat.eqb_eq in E0. apply length_zero_iff_nil in E0. subst s. exists (dyn [] rest). split; [reflexivity|]. right. now exists rest. }
+  fold (dyn s rest). rewrite dyn_raw.
+  destruct (grow_raw s (0%N :: rest) (length s * 2)) as (T' & -> & HT'). cbn [fst raw blen cells].
+  rewrite (firstn_app_l (length s) s) by reflexivity.
+  set (h := bin_to_hex up s). assert (Hh : length h = length s * 2) by apply bin_to_hex_length.
+  destruct (skipn (length h) (s ++ T')) as [|x W] eqn:EW.
+  { apply (f_equal (@length N)) in EW. rewrite skipn_length, app_length in EW. cbn [length] in EW. lia. }
+  erewrite (blit_at _ [] (firstn (length h) (s ++ T')) (x :: W) h 0); [| | | reflexivity].
+  2:{ cbn [cells app]. now rewrite <- EW, firstn_skipn. }
+  2:{ rewrite firstn_length, app_length. lia. }
+  unfold set_cells, set_len. cbn [cells app blen bstatic bfault].
+  erewrite (poke_at _ h x W); [| reflexivity | cbn [blen raw]; lia].
+  exists (dyn h W). split; [|right; now exists W].
+  unfold set_cells, dyn. cbn [cells blen bstatic bfault raw]. now rewrite Hh.
+Qed.
+
+Lemma decode_base64_R b s : R b s ->
+  exists b', decode_base64 b = (b', Some (match buffer_b64_dec s with Some _ => true | None => false end)) /\
+             R b' (match buffer_b64_dec s with Some out => out | None => no_spaces_spec s end).
+Proof.
+  intros HR. destruct (R_contents _ _ HR) as (_ & Hst & _). unfold decode_base64. rewrite Hst.
+  destruct (no_spaces_R b s HR) as (b1 & -> & HR1). destruct (R_contents _ _ HR1) as (Hc1 & _ & _).
+  rewrite Hc1. unfold buffer_b64_dec. fold (no_spaces_spec s).
+  destruct (b64_dec (no_spaces_spec s)) as [out|]; [|now exists b1].
+  pose proof (clear_R b1 _ HR1) as HR2.
+  destruct (append_data_R _ _ out HR2) as (H1 & H2). cbn [app] in H1.
+  destruct (append_data _ out) as (b3, ok). cbn [fst snd] in *. subst ok. now exists b3.
+Qed.
+
+Lemma encode_base64_R b s : R b s ->
+  exists b', encode_base64 b = (b', Some (match b64_enc s with Some _ => true | None => false end)) /\
+             R b' (match b64_enc s with Some out => cstr out | None => s end).
+Proof.
+  intros HR. destruct (R_contents _ _ HR) as (Hc & Hst & _). unfold encode_base64. rewrite Hst, Hc.
+  destruct (b64_enc s) as [out|]; [|now exists b].
+  pose proof (clear_R b _ HR) as HR2. destruct (R_contents _ _ HR2) as (_ & Hst2 & _).
+  unfold append_cstr. rewrite Hst2.
+  destruct (append_data_R _ _ (cstr out) HR2) as (H1 & H2). cbn [app] in H1.
+  destruct (append_data _ (cstr out)) as (b3, ok). cbn [fst snd] in *. subst ok. now exists b3.
+Qed.
+
+(* ---------------------------------------------------------------------------------------- *)
+(* the remaining mutating operations as refinement steps                                     *)
+
+Lemma refines_mut b o f r0 : Inv b ->
+  (bstatic b = false -> exists b', step b o = (b', snd (f (contents b))) /\ R b' (fst (f (contents b)))) ->
+  (forall s, spec_step (s, false) o = mut (s, false) r0 f) ->
+  (bstatic b = true -> step b o = (b, r0)) ->
+  (forall s, spec_step (s, true) o = ((s, true), r0)) ->
+  refines_step b o.
+Proof.
+  intros HI Hd Hs Hms Hss. destruct (bstatic b) eqn:Hst.
+  { apply (refines_readonly _ _ r0 HI); [now apply Hms | unfold abs; rewrite Hst; apply Hss]. }
+  destruct (Hd eq_refl) as (b' & H1 & H2).
+  eapply refines_R; [exact H1 | | exact H2 | reflexivity].
+  unfold abs. rewrite Hst, Hs, mut_dynamic. reflexivity.
+Qed.
+
+Ltac static_step b := intros Hst; pose proof (static_refuses b) as Hsr;
+  match goal with |- step _ ?o = _ => specialize (Hsr o Hst); exact Hsr end.
+
+Lemma refines_shrink b : Inv b -> refines_step b OShrink.
+Proof.
+  intros HI. apply (refines_mut b OShrink (fun s => (collapse_spec s, RBool true)) (RBool false)); auto; [|static_step b].
+  intros Hst. destruct (shrink_R b _ (Inv_R b HI Hst)) as (b' & H1 & H2). exists b'. cbn [step]. now rewrite H1.
+Qed.
+
+Lemma refines_strip b : Inv b -> op_ok (abs b) OStrip = true -> refines_step b OStrip.
+Proof.
+  intros HI Hok. cbn [op_ok abs fst] in Hok. apply N.ltb_lt in Hok.
+  apply (refines_mut b OStrip (fun s => (trim_spec s, RBool true)) (RBool false)); auto; [|static_step b].
+  intros Hst. destruct (strip_R b _ (Inv_R b HI Hst) Hok) as (b' & H1 & H2). exists b'. cbn [step]. now rewrite H1.
+Qed.
+
+Lemma refines_no_spaces b : Inv b -> refines_step b ONoSpaces.
+Proof.
+  intros HI. apply (refines_mut b ONoSpaces (fun s => (no_spaces_spec s, RVoid)) RVoid); auto; [|static_step b].
+  intros Hst. destruct (no_spaces_R b _ (Inv_R b HI Hst)) as (b' & H1 & H2). exists b'. cbn [step]. now rewrite H1.
+Qed.
+
+Lemma refines_rtz b : Inv b -> refines_step b ORemoveTrailingZeros.
+Proof.
+  intros HI. apply (refines_mut b ORemoveTrailingZeros (fun s => (rtz_spec s, RBool true)) (RBool false)); auto; [|static_step b].
+  intros Hst. destruct (rtz_R b _ (Inv_R b HI Hst)) as (b' & H1 & H2). exists b'. cbn [step]. now rewrite H1.
+Qed.
+
+Lemma refines_hex_to_bin b : Inv b -> refines_step b OHexToBin.
+Proof.
+  intros HI. apply (refines_mut b OHexToBin (fun s => (hex_to_bin s, RBool true)) (RBool false)); auto; [|static_step b].
+  intros Hst. destruct (hex_to_binary_R b _ (Inv_R b HI Hst)) as (b' & H1 & H2). exists b'. cbn [step]. now rewrite H1.
+Qed.
+
+Lemma refines_bin_to_hex b up : Inv b -> refines_step b (OBinToHex up).
+Proof.
+  intros HI. apply (refines_mut b (OBinToHex up) (fun s => (bin_to_hex up s, RBool true)) (RBool false)); auto; [|static_step b].
+  intros Hst. destruct (binary_to_hex_R b _ up (Inv_R b HI Hst)) as (b' & H1 & H2). exists b'. cbn [step]. now rewrite H1.
+Qed.
+
+Lemma refines_decode_b64 b : Inv b -> refines_step b ODecodeB64.
+Proof.
+  intros HI.
+  apply (refines_mut b ODecodeB64 (fun s => match buffer_b64_dec s with Some out => (out, RBool true)
+                                            | None => (no_spaces_spec s, RBool false) end) (RBool false)); auto; [|static_step b].
+  intros Hst. destruct (decode_base64_R b _ (Inv_R b HI Hst)) as (b' & H1 & H2). exists b'. cbn [step]. rewrite H1.
+  destruct (buffer_b64_dec (contents b)); auto.
+Qed.
+
+Lemma refines_encode_b64 b : Inv b -> refines_step b OEncodeB64.
+Proof.
+  intros HI.
+  apply (refines_mut b OEncodeB64 (fun s => match b64_enc s with Some out => (cstr out, RBool true)
+                                            | None => (s, RBool false) end) (RBool false)); auto; [|static_step b].
+  intros Hst. destruct (encode_base64_R b _ (Inv_R b HI Hst)) as (b' & H1 & H2). exists b'. cbn [step]. rewrite H1.
+  destruct (b64_enc (contents b)); auto.
+Qed.
+
+(* ---------------------------------------------------------------------------------------- *)
+(* all operations together                                                                   *)
+
+(* operations whose refinement is proved; split_words / search / search_cstr are corresponded only *)
+Definition proved_op (o : op) : bool :=
+  match o with OSplitWords | OSearch _ _ | OSearchCstr _ _ => false | _ => true end.
+
+Theorem step_refines b o : Inv b -> op_ok (abs b) o = true -> proved_op o = true -> refines_step b o.
+Proof.
+  intros HI Hok Hp. destruct o; try discriminate Hp.
+  - now apply refines_create.
+  - apply refines_sta_create.
+  - now apply refines_duplicate.
+  - now apply refines_len.
+  - now apply refines_get.
+  - now apply refines_set.
+  - now apply refines_insert.
+  - now apply refines_insert_cstr.
+  - now apply refines_append.
+  - now apply refines_append_data.
+  - now apply refines_append_cstr.
+  - now apply refines_append_char.
+  - now apply refines_append_mb.
+  - now apply refines_delete.
+  - now apply refines_shrink.
+  - now apply refines_strip.
+  - now apply refines_no_spaces.
+  - now apply refines_compare.
+  - now apply refines_compare_cstr.
+  - now apply refines_search_char.
+  - now apply refines_onlyws.
+  - now apply refines_hex_to_bin.
+  - now apply refines_bin_to_hex.
+  - now apply refines_decode_b64.
+  - now apply refines_encode_b64.
+  - now apply refines_rtz.
+Qed.
+
+(* lifted to every operation sequence: after every operation the contents, the static mark and the
+   returned value are those of the plain byte string, and the invariant holds *)
+Theorem run_refines ops : forall b, Inv b -> ops_ok (abs b) ops = true -> forallb proved_op ops = true ->
+  map (fun x => (abs (fst x), snd x)) (run b ops) = spec_run (abs b) ops /\
+  Forall (fun x => Inv (fst x)) (run b ops).
+Proof.
+  induction ops as [|o r IH]; intros b HI Hok Hp; cbn [run spec_run map]; [split; constructor|].
+  cbn [ops_ok forallb] in Hok, Hp. apply andb_true_iff in Hok. destruct Hok as (Hok1 & Hok2).
+  apply andb_true_iff in Hp. destruct Hp as (Hp1 & Hp2).
+  destruct (step_refines b o HI Hok1 Hp1) as (Ha & Hr & HI').
+  rewrite <- Ha in Hok2. destruct (IH _ HI' Hok2 Hp2) as (IH1 & IH2).
+  split; [|constructor; auto].
+  rewrite IH1, Ha. f_equal. rewrite Hr. now destruct (spec_step (abs b) o).
+Qed.
+
+Lemma Inv_create data block : (N.of_nat (length data) + 1 + block < 4294967296)%N -> Inv (create data block).
+Proof. intros H. eapply R_Inv. now apply create_R. Qed.
+
+(* the invariant spelled out for a dynamic buffer with storage *)
+Lemma Inv_terminator b : Inv b -> bstatic b = false -> cells b <> [] ->
+  bfault b = false /\ blen b < length (cells b) /\ nth (blen b) (cells b) junk = 0%N.
+Proof.
+  intros (Hf & H) Hst Hc. rewrite Hst in H. destruct H as [(H & _) | H]; [congruence|]. tauto.
+Qed.
